@@ -822,10 +822,7 @@ impl Engine for C07 {
             if z.chance(20) {
                 // the provider walks the entries once, remap once: about 3 operations per entry and walk
                 let span = 7 * p.entries.len() as u64 + 6;
-                let mut fail_at: Vec<u32> = (0..z.below(3)).map(|_| z.below(span) as u32).collect();
-                fail_at.sort();
-                fail_at.dedup();
-                p.lazy = Some(LazyPlan { fail_at, sticky: z.chance(30), io: if z.chance(50) { IoPlan::gen_legal(&mut z) } else { IoPlan::plain() } });
+                p.lazy = Some(LazyPlan::draw(&mut z, span, 2 * p.entries.len() as u64));
             }
         }
         // debugging aid: VERIF_C07_DUMP_RUN=<run index> writes that run's plan as a replay file
@@ -1041,9 +1038,16 @@ impl Engine for C07 {
                     if failed {
                         st.probe("lazy.ok_after_failed_entry_operation");
                     }
-                    // the data is intact whatever failed in between: an answer must be THE answer
-                    if v != t0_entries {
-                        let at = v.iter().zip(&t0_entries).position(|(a, b)| a != b).unwrap_or(v.len().min(t0_entries.len()));
+                    // the data is intact whatever failed in between: an answer must be THE answer (the order of the output
+                    // entries is not the property's subject: with a drawn names order the comparison is by entry name)
+                    let (mut v, mut t0_sorted) = (v, t0_entries.clone());
+                    if lp.names_order != 0 {
+                        v.sort_by(|a, b| a.0.cmp(&b.0));
+                        t0_sorted.sort_by(|a, b| a.0.cmp(&b.0));
+                    }
+                    let t0_entries = &t0_sorted;
+                    if v != *t0_entries {
+                        let at = v.iter().zip(t0_entries.iter()).position(|(a, b)| a != b).unwrap_or(v.len().min(t0_entries.len()));
                         let (class, what) = if failed { ("reader-ok-with-wrong-data", "Ok although an entry operation failed, and") } else { ("schedule-dependence", "no entry operation failed, but") };
                         push_dedup(&mut out, &mut seen, Violation::new(tier, class, "lazy.entries", format!("{what} the output differs from the output for the zip-backed jar at entry {at} ({} vs {} entries)", v.len(), t0_entries.len())));
                     }
@@ -1071,18 +1075,9 @@ impl Engine for C07 {
             let mut q = p.clone();
             q.lazy = None;
             c.push(q);
-            for i in 0..lp.fail_at.len() {
+            for l in lp.smaller() {
                 let mut q = p.clone();
-                if let Some(l) = q.lazy.as_mut() {
-                    l.fail_at.remove(i);
-                }
-                c.push(q);
-            }
-            if !lp.io.is_plain() {
-                let mut q = p.clone();
-                if let Some(l) = q.lazy.as_mut() {
-                    l.io = IoPlan::plain();
-                }
+                q.lazy = Some(l);
                 c.push(q);
             }
         }
@@ -1167,7 +1162,7 @@ impl Engine for C07 {
 
     fn size(&self, p: &Plan) -> (u64, u64) {
         let bytes: usize = p.entries.iter().map(|e| e.data.len()).sum();
-        ((p.entries.len() + p.map.count()) as u64 + bytes as u64 / 64 + p.sink.is_some() as u64, (p.io.faults.len() + p.sink.as_ref().map_or(0, |s| s.faults.len()) + p.lazy.as_ref().map_or(0, |l| l.fail_at.len())) as u64)
+        ((p.entries.len() + p.map.count()) as u64 + bytes as u64 / 64 + p.sink.is_some() as u64, (p.io.faults.len() + p.sink.as_ref().map_or(0, |s| s.faults.len()) + p.lazy.as_ref().map_or(0, |l| l.faults())) as u64)
     }
     fn rule(&self) -> String {
         "one run = one jar (1-8 classes: refclass-generated classes re-pointed at each other / at classes outside the jar, plus javac corpus classes; non-class entries; directories; stored or deflated) x one two-namespace mapping set over those classes (partial, package moves, inner classes, members declared in / inherited from super types inside and outside the jar), turned into the REAL quill remapper_b over the REAL JarSuperProv x one medium schedule (chunk ceiling, short %, EINTR %) x 0-2 faults (EIO at call n / at offset, torn jar, flipped byte aimed at data / central directory / end record, seek failure; on both readers of the jar or on remap only); distinct by (workload shape digest, I/O event-log digest); a run is non-trivial when a short transfer, EINTR or fault actually fired".into()
